@@ -27,12 +27,15 @@ theorem amGet_of_mem_nodup {β : Type} : ∀ (m : List (Str × β)) (k : Str) (v
       exact amGet_of_mem_nodup r k v hn.2 h
 
 theorem ginv_empty (W : Colls) (hfresh : ∀ C, W.mem C → C.uid ≠ 0) : GInv W [] Agg.empty := by
-  refine ⟨⟨⟨⟨?_, ?_⟩, cinv_nil W _ hfresh, rfl⟩, ?_, ?_, ?_, ?_, ?_, ?_⟩, ninv_empty⟩
+  refine ⟨⟨⟨⟨?_, ?_, ?_⟩, cinv_nil W _ hfresh, rfl⟩, ?_, ?_, ?_, ?_, ?_, ?_⟩, ninv_empty⟩
   · intro C _
     refine ⟨?_, ?_⟩
     · intro d v' h; cases h
     · intro f f' h; cases h
   · intro d hd; simp [Agg.empty] at hd
+  · refine ⟨?_, ?_⟩
+    · intro uid d ty h; cases h
+    · intro uid f ty h; cases h
   · intro n k h; cases h
   · intro n1 n2 e h; cases h
   · intro g _ h; cases h
